@@ -75,9 +75,10 @@ ENT = 'may 5'
 
 def h_add_mod(k: int, j: int, gap: int):
     """the entity ENT with PHRASE before (or after) it, k filler characters in front and j behind, `gap` blanks between phrase and entity"""
-    assume(0 <= k <= 6 and 0 <= j <= 4 and 1 <= gap <= 2)
+    assume(0 <= k <= 9 and 0 <= j <= 4 and 1 <= gap <= 2)
     k, j, gap = int(k), int(j), int(gap)
-    head = ('w' * k + ' ') if k else ''
+    # k = 0: nothing in front; 1..6: a filler word and a blank; 7..9: only blanks in front (1..3)
+    head = ('w' * k + ' ') if 1 <= k <= 6 else ' ' * (k - 6 if k > 6 else 0)
     tail = (' ' + 'z' * j) if j else ''
     if SUFFIX:
         source = head + ENT + ' ' * gap + PHRASE + tail
